@@ -106,6 +106,8 @@ pub enum ZOp {
     MakeContiguous,
     /// drain(range) with `steps` alternating next / next_back calls, then dropped
     Drain(ZB, ZB, u8),
+    /// the same, but the drain is leaked with mem::forget after the steps
+    DrainForget(ZB, ZB, u8),
     Range(ZB, ZB, bool),
     Access(ZI),
     Views,
@@ -161,6 +163,7 @@ pub fn run_zcase(c: &ZCase) -> Result<u64, String> {
     let mut b = make(ci, c.boxed);
     let mut len: usize = 0;
     let mut held: Vec<Unit> = Vec::new();
+    let mut leaked: usize = 0;
     // ---- setup through the public API
     let push = |len: &mut usize, full_ret: Option<Unit>, held: &mut Vec<Unit>| -> Result<(), String> {
         match full_ret {
@@ -209,7 +212,7 @@ pub fn run_zcase(c: &ZCase) -> Result<u64, String> {
             return Err("pop_back returned None on a non-empty buffer".into());
         }
     }
-    let check = |b: &dyn Deq<Unit>, len: usize, held: usize, flags: &mut u64| -> Result<(), String> {
+    let check = |b: &dyn Deq<Unit>, len: usize, held: usize, leaked: usize, flags: &mut u64| -> Result<(), String> {
         if b.len() != len {
             return Err(format!("len() = {}, expected {len}", b.len()));
         }
@@ -236,12 +239,12 @@ pub fn run_zcase(c: &ZCase) -> Result<u64, String> {
             return Err("get/nth_back beyond the length returned Some".into());
         }
         let alive = Unit::created() - Unit::dropped();
-        if alive != (len + held) as u64 {
-            return Err(format!("{} zero-sized elements alive, expected {} in the buffer + {} with the caller", alive, len, held));
+        if alive != (len + held + leaked) as u64 {
+            return Err(format!("{} zero-sized elements alive, expected {} in the buffer + {} with the caller (+ {} leaked by forgotten drains)", alive, len, held, leaked));
         }
         Ok(())
     };
-    guard("observation", || check(&*b, len, held.len(), &mut flags))??;
+    guard("observation", || check(&*b, len, held.len(), leaked, &mut flags))??;
     for (i, op) in c.ops.iter().enumerate() {
         let ctx = |m: String| format!("op #{i} {op:?}: {m}");
         let r: Result<(), String> = (|| {
@@ -336,7 +339,8 @@ pub fn run_zcase(c: &ZCase) -> Result<u64, String> {
                         return Err("as_slices reports two slices after make_contiguous".into());
                     }
                 }
-                ZOp::Drain(s, e, steps) => {
+                ZOp::Drain(s, e, steps) | ZOp::DrainForget(s, e, steps) => {
+                    let forget = matches!(op, ZOp::DrainForget(..));
                     let ra = RangeArg { start: zb(*s, len, n), end: zb(*e, len, n), native: *steps % 2 == 0 };
                     let must = range_must_panic(ra.start, ra.end, len);
                     let steps = *steps;
@@ -360,7 +364,11 @@ pub fn run_zcase(c: &ZCase) -> Result<u64, String> {
                                     return Err(format!("drain len() = {} with {rem} remaining", d.len()));
                                 }
                             }
-                            drop(d);
+                            if forget {
+                                d.forget();
+                            } else {
+                                drop(d);
+                            }
                             Ok(total)
                         }))
                     };
@@ -381,7 +389,26 @@ pub fn run_zcase(c: &ZCase) -> Result<u64, String> {
                             if total != (e2 - a) as usize {
                                 return Err(format!("drain selected {total} elements, expected {}", e2 - a));
                             }
-                            len -= total;
+                            if forget {
+                                // leaking may lose arbitrary elements, but the buffer must not keep counting
+                                // elements that were handed out: everything it holds plus everything the
+                                // caller holds must still be alive
+                                let now = b.len();
+                                if now > len {
+                                    return Err(format!("after leaking the drain the buffer has {now} elements, more than before ({len})"));
+                                }
+                                let alive = Unit::created() - Unit::dropped();
+                                if (now + held.len()) as u64 > alive {
+                                    return Err(format!(
+                                        "after leaking the drain the buffer claims {now} elements and the caller holds {}, but only {alive} are alive: an element handed out by the drain is still counted as buffer contents",
+                                        held.len()
+                                    ));
+                                }
+                                leaked = (alive - (now + held.len()) as u64) as usize;
+                                len = now;
+                            } else {
+                                len -= total;
+                            }
                         }
                     }
                 }
@@ -514,12 +541,12 @@ pub fn run_zcase(c: &ZCase) -> Result<u64, String> {
             Ok(())
         })();
         r.map_err(&ctx)?;
-        guard("observation", || check(&*b, len, held.len(), &mut flags)).map_err(&ctx)?.map_err(&ctx)?;
+        guard("observation", || check(&*b, len, held.len(), leaked, &mut flags)).map_err(&ctx)?.map_err(&ctx)?;
     }
     drop(b);
     drop(held);
-    if Unit::created() != Unit::dropped() {
-        return Err(format!("{} zero-sized elements created but {} destroyed", Unit::created(), Unit::dropped()));
+    if Unit::created() != Unit::dropped() + leaked as u64 {
+        return Err(format!("{} zero-sized elements created, {} destroyed, {} leaked by forgotten drains", Unit::created(), Unit::dropped(), leaked));
     }
     Ok(flags)
 }
@@ -563,6 +590,9 @@ pub fn all_ops() -> Vec<ZOp> {
         for e in &bs {
             for steps in [0u8, 1, 3] {
                 ops.push(ZOp::Drain(*s, *e, steps));
+            }
+            for steps in [0u8, 1, 2] {
+                ops.push(ZOp::DrainForget(*s, *e, steps));
             }
             ops.push(ZOp::Range(*s, *e, false));
             ops.push(ZOp::Range(*s, *e, true));
